@@ -119,6 +119,10 @@ def interface_sources():
         P % 'bool a[8]; a[7] = true; bool b[0];',
         P % 'string s = "ab"; s[0] = \'c\';',
         P % 'write("\\\\"); write(\'\\\\\'); write("\\"\\n\\r\\t\\0");',
+        # every spelled escape, in every place a character or string constant is rendered into the assembly
+        P % "write('\\''); write('\"'); write('\\\\'); write('\\n'); write('\\r'); write('\\t'); write('\\0'); write('\\x27'); write('\\x22'); write('\\x5c'); write('\\x7f'); write('\\xff');",
+        "byte q = '\\'';\nbyte d = '\"';\nbyte bs = '\\\\';\nconst byte[] qs = ['\\'', '\"', '\\\\', '\\n'];\nbyte[] ms = ['\\'', 'z'];\n" + P % "write(q); write(d); write(bs); write(qs); write(ms); if (q == '\\'') { write(\"it's\"); } byte l = '\\''; l += '\\''; byte[] la = ['\\'', '\"']; write(la);",
+        P % "write(\"say \\\"hi\\\" and 'bye' \\\\ \\x27 \\x22\"); string s = \"'\"; write(s); write(\"\\\"\"); string[] t = [\"'\", \"\\\"\", \"\\\\\"]; write(t[0]); write(t[1]); write(\"'\"[0]); const byte[] b = \"'\\\"\" is byte[]; write(b);",
         P % 'write([]); write([] is byte[]);',
         P % 'sleep([][0]);',
         P % 'sleep(([1, 2] is byte[])[0]); sleep([1, 2].length); sleep(([1] is bool) is int);',
